@@ -34,7 +34,7 @@ for prop in sorted(os.listdir(SRC)):
         meta = {
             "id": sid,
             "property": prop,
-            "origin": "written by a sub-agent (round %s) that was given only the text of property %s and a scratch worktree of /repo at %s" % (("6" if m in ("m11", "m12") else "5" if m in ("m9", "m10") else "4" if m in ("m7", "m8") else "3" if m in ("m5", "m6") else "2") if base != "cf7291f" else "1", prop, base),
+            "origin": "written by a sub-agent (round %s) that was given only the text of property %s and a scratch worktree of /repo at %s" % (("7" if m in ("m13", "m14") else "6" if m in ("m11", "m12") else "5" if m in ("m9", "m10") else "4" if m in ("m7", "m8") else "3" if m in ("m5", "m6") else "2") if base != "cf7291f" else "1", prop, base),
             "summary": agent.get("summary", ""),
             "needs_to_manifest": agent.get("needs_to_manifest", ""),
             "demo_cmd": agent.get("demo_cmd", ""),
